@@ -341,6 +341,7 @@ class Engine:
             kind, txt, pos = sid, '', (0, 0)
         self.vcs.append(VC((self.cur, kind, txt, pos, clause), list(st.pc) if hyps is None else list(hyps), goal, note,
                            hints=list(self.L.hints), line=pos[0], path=st.path))
+        self.vcs[-1].local = hyps is not None        # a local proof: few, hand-picked hypotheses
 
     def finish_ids(self):
         """turn (func, kind, text, pos, clause) into stable string ids"""
